@@ -38,6 +38,14 @@ pub fn verify_oods<Layout: LayoutTrait>(
     // TODO support degree > 2?
     let claimed_composition = oods[oods.len() - 2] + oods[oods.len() - 1] * oods_point;
 
+    #[cfg(swiftness_verif)]
+    swiftness_transcript::verif::ev("oods")
+        .u("len", oods.len() as u64)
+        .fs("values", oods.iter())
+        .f("point", oods_point)
+        .f("from_trace", &composition_from_trace)
+        .f("claimed", &claimed_composition)
+        .emit();
     assure!(
         composition_from_trace == claimed_composition,
         OodsVerifyError::EvaluationInvalid {
